@@ -550,3 +550,6 @@ ASSUMPTIONS = ['default features (no `parallel`): cfg_iter!/cfg_into_iter! are t
 HYPOTHESES = ['Rth : ring_theory zero one add mul sub neg eq  (commutative-ring laws of the coefficient field; '
               'every field_theory provides it through F_R)',
               'eqb_spec : forall a b, feqb a b = true <-> a = b']
+
+# pinned theorems that instantiate this package's abstract-field theorems at the executed ZpOps dictionary
+EXTRA_PROP_FILES = ['Bridge2']
